@@ -29,6 +29,12 @@ CHECKS = {
    text="Generated-input search: every G-SQL statement that the parser accepts is serialised by AST.SQL, AST.Format, gosqlx.Format, formatter.Format and the CLI SQLFormatter under drawn option sets; the output must be accepted, re-parse to the same tree (strings case-folded) and be a fixed point of the same serialiser. Exploration only; the cli serialiser is steered around one listed finding.",
    note="Trusted: gosqlx.Parse as the reader on both sides (its own correctness is C03's business); case-folded tree comparison cannot see a change that only alters the case of a name.",
    design="4/C06"),
+ "C07": dict(
+   technique="property-based testing: differential over 17 parse/validate/recovery entry points and batch-vs-individual relation on generated inputs",
+   level="exploration",
+   text="Generated-input search: valid, hostile-layout, single-token-corrupted, multi-statement (stray semicolons) and lexical-soup inputs, each run through every convenience, byte, context, timeout, batch, low-level (plain/context/positions), validator and recovery entry point; verdicts, trees and error codes must agree pairwise; batch calls must equal the individual calls and name the first failing index. The three low-level statement loops are also compared under the same parser options (strict, dialect).",
+   note="Trusted: astdump as tree equality; error code = Code of the *errors.Error reachable with errors.As; inputs made only of semicolons/blank/comments are excluded as the property says.",
+   design="4/C07"),
 }
 
 def main():
